@@ -149,6 +149,17 @@ fn compare_state(log: &[String], real: &RealDBM, model: &ModelDBM, users: &[User
     let a: HashSet<Vec<u8>> = HashSet::from_iter(real.batch_check_locators_exist(all.iter().collect()).iter().map(|l| l.to_vec()));
     let b: HashSet<Vec<u8>> = HashSet::from_iter(model.batch_check_locators_exist(all.iter().collect()).iter().map(|l| l.to_vec()));
     agree!(log, "batch_check_locators_exist", a, b);
+    // every non-empty subset of the locators, in both orders (several rows may share one locator: the answer is about
+    // locators, not rows)
+    for mask in 1..8u8 {
+        let mut sub: Vec<Locator> = (0..3u8).filter(|l| mask & (1 << l) != 0).map(locator).collect();
+        for _ in 0..2 {
+            let a: HashSet<Vec<u8>> = HashSet::from_iter(real.batch_check_locators_exist(sub.iter().collect()).iter().map(|l| l.to_vec()));
+            let b: HashSet<Vec<u8>> = HashSet::from_iter(model.batch_check_locators_exist(sub.iter().collect()).iter().map(|l| l.to_vec()));
+            agree!(log, "batch_check_locators_exist(subset)", a, b);
+            sub.reverse();
+        }
+    }
     let ra: HashSet<Vec<u8>> = real.load_appointments(None).keys().map(|u| u.to_vec()).collect();
     let ma: HashSet<Vec<u8>> = model.load_appointments(None).iter().map(|(u, _)| u.to_vec()).collect();
     agree!(log, "load_appointments(None)", ra, ma);
